@@ -48,6 +48,34 @@ fn read_for(s: &mut TcpStream, ms: u64) -> (Vec<u8>, bool) {
     (out, closed)
 }
 
+/// connects while the process has no free file descriptor: the server's accept() fails (EMFILE) for `ms` milliseconds, then
+/// the descriptors are released again.  The client socket itself is created beforehand.
+fn connect_during_fd_exhaustion(addr: std::net::SocketAddr, ms: u64) -> std::io::Result<TcpStream> {
+    use socket2::{Domain, Socket, Type};
+    let sock = Socket::new(Domain::IPV4, Type::STREAM, None)?;
+    let mut old = libc::rlimit { rlim_cur: 0, rlim_max: 0 };
+    unsafe {
+        libc::getrlimit(libc::RLIMIT_NOFILE, &mut old);
+        let low = libc::rlimit { rlim_cur: 512.min(old.rlim_cur), rlim_max: old.rlim_max };
+        libc::setrlimit(libc::RLIMIT_NOFILE, &low);
+    }
+    let mut hogs = vec![];
+    while let Ok(f) = std::fs::File::open("/dev/null") {
+        hogs.push(f);
+        if hogs.len() > 100_000 {
+            break;
+        }
+    }
+    let r = sock.connect(&addr.into());
+    std::thread::sleep(Duration::from_millis(ms));
+    drop(hogs);
+    unsafe {
+        libc::setrlimit(libc::RLIMIT_NOFILE, &old);
+    }
+    r?;
+    Ok(sock.into())
+}
+
 pub fn run_socket(sc: &Value) -> Value {
     let w = make_world(sc);
     let cache: Arc<dyn Cache + Send + Sync> = match &w.policy {
@@ -98,7 +126,12 @@ pub fn run_socket(sc: &Value) -> Value {
             }
             std::thread::sleep(Duration::from_millis(150));
         }
-        let mut s = match TcpStream::connect(addr) {
+        let connected = if let Some(ms) = c["fd_exhaustion_ms"].as_u64() {
+            connect_during_fd_exhaustion(addr, ms)
+        } else {
+            TcpStream::connect(addr)
+        };
+        let mut s = match connected {
             Ok(s) => s,
             Err(e) => {
                 results.push(json!({"error": e.to_string()}));
